@@ -951,6 +951,10 @@ func canJoin(ls, rs Source, vm *promParser.VectorMatching) (bool, string, posran
 		}
 	default: // ls unless rs
 		for _, name := range ls.GuaranteedLabels {
+			if slices.Contains(vm.MatchingLabels, name) {
+				// labels listed in ignoring(...) are not used for matching
+				continue
+			}
 			if ls.CanHaveLabel(name) && !rs.CanHaveLabel(name) {
 				return false, fmt.Sprintf("The %s hand side will never be matched because it doesn't have the `%s` label while the left hand side will. %s",
 					side, name, rs.LabelExcludeReason(name).Reason), rs.LabelExcludeReason(name).Fragment
